@@ -80,6 +80,12 @@ def spellings():
     for l in "rRsSuUmn":
         signed = l in "rRsS"
         out.append(dict(name=f"imm;{l}", text=f"{{ RddV = (int64_t) {l}iV; ReV = {l}iV >> 4; }}", expect=[("imm", l, signed)]))
+    # lower- and upper-case immediates of one letter in one behaviour, in both orders; all eight together
+    for lo, up in (("s", "S"), ("u", "U"), ("r", "R")):
+        out.append(dict(name=f"imm2;{lo}{up}", text=f"{{ RddV = (int64_t) {lo}iV - {up}iV; ReV = {up}iV; }}", expect=[("imm", lo, lo in "rs"), ("imm", up, up in "RS")]))
+        out.append(dict(name=f"imm2;{up}{lo}", text=f"{{ RddV = (int64_t) {up}iV - {lo}iV; ReV = {lo}iV; }}", expect=[("imm", lo, lo in "rs"), ("imm", up, up in "RS")]))
+    out.append(dict(name="imm8;all", text="{ RddV = (int64_t) riV + RiV * 3 + siV * 5 + SiV * 7 + uiV * 11 + UiV * 13 + miV * 17 + niV * 19; }",
+                    expect=[("imm", l, l in "rRsS") for l in "rRsSuUmn"]))
     # memory
     for s in "su":
         for w in (8, 16, 32, 64):
